@@ -765,6 +765,55 @@ def _check_restricted(ctx, func, call):
             flat += [src.body, src.orelse]
         else:
             flat.append(src)
+    # second spelling: the index is handed down as it is and a SELECTION of
+    # identifiers (a parameter intersected with the set of the current label
+    # value) carries the restriction
+    sel_par = None
+    for par in func.params[2:]:
+        if any(isinstance(n, ast.BinOp) and isinstance(n.op, ast.BitAnd) and
+               {txt(n.left), txt(n.right)} == {setvar, par}
+               for n in ast.walk(func.node)):
+            sel_par = par
+    if sel_par is not None and setvar is not None and txt(arg) == index_par:
+        given = None
+        for kwd in call.keywords:
+            if kwd.arg == sel_par:
+                given = kwd.value
+        if given is None and sel_par in func.params:
+            pos = func.params.index(sel_par) - (
+                1 if func.params[0] in ('self', 'cls') else 0)
+            if pos < len(call.args):
+                given = call.args[pos]
+        construct = f'recursion narrows the selection: {sel_par}=' \
+                    f'{txt(given) if given is not None else "<default>"}'
+        if given is None or txt(given) in (setvar, sel_par):
+            ctx.violated(
+                'COUNT-SHAPE', func, construct, at=func.where(call),
+                detail=f'the deeper levels must see the results selected by '
+                       f'ALL the labels so far ({setvar} & {sel_par}); '
+                       + ('nothing is passed' if given is None else
+                          f'`{txt(given)}` alone ' + (
+                              'forgets the previous labels (rows of the '
+                              'third label count results of other '
+                              'branches)' if txt(given) == setvar else
+                              'is not narrowed by the current label')))
+            return
+        defs = [n.value for n in ast.walk(loop or func.node)
+                if isinstance(n, ast.Assign) and any(
+                    txt(t) == txt(given) for t in n.targets)] \
+            if isinstance(given, ast.Name) else [given]
+        parts = []
+        for src in defs:
+            parts += [src.body, src.orelse] if isinstance(
+                src, ast.IfExp) else [src]
+        good = bool(parts) and all(
+            (isinstance(pt, ast.BinOp) and isinstance(pt.op, ast.BitAnd) and
+             {txt(pt.left), txt(pt.right)} == {setvar, sel_par}) or
+            txt(pt) == setvar for pt in parts) and any(
+                isinstance(pt, ast.BinOp) for pt in parts)
+        ctx.decide('COUNT-SHAPE', func, construct, True if good else None,
+                   at=func.where(call))
+        return
     if not flat or setvar is None:
         ctx.undecided('COUNT-SHAPE', func, f'sub-index of the recursion '
                       f'{txt(arg)} not understood', at=func.where(call))
@@ -801,3 +850,60 @@ def _len_shape(expr):
             isinstance(arg.args[0], ast.Name):
         return (receiver(arg).id, arg.args[0].id)
     return None
+
+
+# ------------------------------------------------------------- CLS-READ ---
+
+def check_cls_read(ctx):
+    """The classification is a defaultdict(list) and the verdict of a summary
+    is computed from its KEYS (len(classify) == 1, membership of SUCCESS /
+    DONE): reading classify[k] for a k that no item had INSERTS k with an
+    empty list, so counting or tabulating a successful summary turns it into
+    a failure.  Every function that touches a classification (the summary
+    classes, classification_counts, the javert representers of the stats
+    results) is analysed with the defaultdict-aware effect analysis: no
+    subscript read with a key that is not drawn from the mapping itself."""
+    from . import purity
+    program = ctx.program
+    analyzer = purity.make_analyzer(program, max_depth=4)
+    entries = []
+    for func in program.all_functions():
+        if func.parent is not None or func.name in ('__init__', 'evaluate'):
+            continue
+        mname = func.module.name
+        if not (mname.startswith('valjean.gavroche.diagnostics') or
+                mname.startswith('valjean.javert')):
+            continue
+        if not any(isinstance(n, ast.Attribute) and n.attr == 'classify' or
+                   isinstance(n, ast.Name) and n.id == 'classify'
+                   for n in ast.walk(func.node)):
+            continue
+        for idx, par in enumerate(func.params):
+            if par in ('classify', 'result', 'self', 'results', 'res'):
+                entries.append((func, idx))
+                break
+    ctx.floor('CLS-READ', len(entries), 6, 'functions touching a '
+              'classification')
+    for func, idx in entries:
+        program.consulted.add(func.module.relpath)
+        summ = analyzer.summary(func)
+        if summ is None:
+            ctx.undecided('CLS-READ', func, f'{func.name}: not summarised')
+            continue
+        effs = [e for e in summ.effects if e.root == idx and
+                e.kind == 'dd-insert']
+        if not effs:
+            ctx.holds('CLS-READ', func, f'{func.name}: no inserting read of '
+                      f'the classification', at=func.where(),
+                      nontrivial=False)
+        seen = set()
+        for eff in effs:
+            if eff.what in seen:
+                continue
+            seen.add(eff.what)
+            ctx.violated('CLS-READ', func, f'{func.name}: {eff.what}',
+                         at=f'{eff.func.module.relpath}:{eff.lineno}',
+                         detail='the read inserts the key: a summary whose '
+                                'only key was the success outcome gets '
+                                'more keys and its verdict becomes false '
+                                '(' + eff.describe() + ')')
